@@ -21,7 +21,9 @@ import (
 )
 
 func main() {
-	mode := flag.String("mode", "", "census|sites|repeat|source|findings|child|concchild")
+	mode := flag.String("mode", "", "census|sites|repeat|source|findings|cold|child|concchild|coldchild")
+	pair := flag.String("pair", "", "coldchild: the two kinds of operation, A,B")
+	rot := flag.Int("rot", 0, "coldchild: rotation of the dialect order")
 	tier := flag.String("tier", "quick", "quick|thorough")
 	outDir := flag.String("out", "", "output directory")
 	verbose := flag.Bool("v", false, "verbose")
@@ -37,6 +39,8 @@ func main() {
 		os.Exit(childMain())
 	case "concchild":
 		os.Exit(concChildMain())
+	case "coldchild":
+		os.Exit(coldChildMain(*pair, *rot, *outDir))
 	}
 	w := out.New(*outDir)
 	switch *mode {
@@ -46,6 +50,8 @@ func main() {
 		repeatMain(w, *tier)
 	case "source":
 		sourceMain(w, *tier)
+	case "cold":
+		coldMain(w, *tier)
 	case "findings":
 		findingsMain(w, *tier)
 	default:
